@@ -590,6 +590,13 @@ class Translator:
     def s_Assign(self, st, rest, env, frame):
         if len(st.targets) != 1:
             self.bad(st, "chained assignment")
+        if self.key(st.targets[0]) in self.spec.get("ignore_writes", ()):
+            # an attribute the spec declares outside the model: the statement is dropped if its right-hand side
+            # cannot raise or have an effect (a name, a constant, an empty display)
+            v = st.value
+            if isinstance(v, (ast.Name, ast.Constant)) or (isinstance(v, (ast.List, ast.Dict, ast.Tuple)) and not ast.unparse(v).strip("[]{}()")):
+                return self.block(rest, env, frame)
+            self.bad(st, "write to an ignored attribute whose right-hand side is not a name, constant or empty display")
         v, hs = self.eval(st.value, env)
 
         def inner():
